@@ -334,6 +334,19 @@ def run(ctx):
              "pyxform/utils.py", why_fail="no escaper entry and no validator pattern covers U+0000-U+001F")
     rules.append(r7)
     rules.append(name_validator_rule(ctx, "C01", "C01.R8"))
+    # choices-sheet headers become element names of the choice items: the header validator reports AND removes every
+    # header that is blank or contains a space (evaluated on a header set)
+    vh = ctx.func("pyxform.validators.pyxform.choices:validate_headers", "C01.R2")
+    it = ctx.interp("C01.R2")
+    it.reset([])
+    w = []
+    hdrs = (("list_name",), ("name",), ("label",), ("",), ("my col",), (" ",), ("region",), ("list name",))
+    try:
+        bad = it.call_function(vh, [], {"headers": hdrs, "warnings": w}, None, vh.node)
+    except Raised as e:
+        bad = f"raises {e.exc_name}"
+    r2.check(isinstance(bad, tuple) and set(bad) == {"", "my col", " "} and len(w) == 3, "validate_headers[blank / spaced headers]",
+             "blank headers and headers with spaces are reported and returned for removal (list name excepted)", vh.loc(), why_fail=f"returned {bad!r}, {len(w)} warnings")
     return rules
 
 
